@@ -45,7 +45,7 @@ Notation prefix := (m_attr_prefix mgr).
 Definition plain_tok (t : token) : Prop :=
   match t_kind t with
   | KTag => (forall a, In a (t_attrs t) -> prefixb prefix (a_name a) = false) /\
-            str_eqb (map to_lower (t_name t)) (m_tag_prefix mgr ++ d_block) = false
+            str_eqb (block_key to_lower (t_name t)) (m_tag_prefix mgr ++ d_block) = false
   | KComment => is_hidden_comment is_space (t_value t) = false
   | _ => True
   end.
